@@ -14,9 +14,12 @@ class Kill(BaseException):
     pass
 
 
+EXC = [Crash, ValueError, KeyError, OSError, RuntimeError, IndexError]
+
+
 class World:
-    def __init__(self, kappa, kill):
-        self.kappa, self.kill = kappa, kill
+    def __init__(self, kappa, kill, etype=0):
+        self.kappa, self.kill, self.etype = kappa, kill, etype
         self.nstep = 0
         self.trace = []
         self.files = {}          # path -> dict(records=[...], sorted=bool, closed=bool)
@@ -33,7 +36,10 @@ class World:
             if self.kill:
                 self.snapshot = (dict(self.status), {k: dict(v) for k, v in self.files.items()})
                 raise Kill()
-            raise Crash('injected failure at step %d (%s)' % (i, name))
+            for k in range(len(EXC)):
+                if self.etype == k:
+                    raise EXC[k]('injected failure at step %d (%s)' % (i, name))
+            raise Crash('injected')
 
     def final(self):
         if self.snapshot is not None:
